@@ -58,14 +58,23 @@ TEXT = {
            "are compared with without losing repetitions, every job of the "
            "stream is ingested, the gate tree is translated totally, in-/out- "
            "evidence is read and written in the same direction, the exit "
-           "fan-out of a loop is recorded before its edges are cut. Decides the "
+           "fan-out of a loop is recorded before its edges are cut; effect "
+           "tables in name-free role expressions for the untested pv2puml "
+           "half: loop-boundary evidence (dummy start / end, loop node, "
+           "rewired parent, break filter), gate tree -> node logic, logic "
+           "block state, merge validation against predecessor sets, "
+           "lock-step reshaping of the per-path lists and index maps, the "
+           "multiset observation. Decides the "
            "plumbing, not the heuristics' language inclusion.",
     "C04": "Decides the four structural premises that make chunked learning "
            "equal one-shot learning at model level: stale-flag typestate on "
            "every write of the successor sets, symmetric total "
            "(de)serialisation, set-union accumulation of value objects, the "
            "saved dict is the updated dict and derived phases work on a "
-           "copy, every graph of a stream is ingested. Diagram-level "
+           "copy, every graph of a stream is ingested with its dummy start "
+           "link, every flag-guarded cache is marked stale by every write, "
+           "the model-file classes pass names through unchanged, the "
+           "observation keeps its counts. Diagram-level "
            "equivalence is not decided.",
     "C05": "Decides totality/pairing/balance of the emission tables, that "
            "every emitted keyword occurs in the repository's own corpus with "
@@ -76,7 +85,10 @@ TEXT = {
            "lock-step, separators / block ends are connected per branch, the "
            "output file is opened only after the text exists, every created "
            "node has a fresh identity, is registered on every path and is "
-           "connected. Block closure "
+           "connected, the dummy start / end of a loop body mirror the boundary "
+           "evidence, pop / partial merge keep per-path lists and index maps "
+           "in step (defect D7 found and repaired), node creation and the "
+           "activity line. Block closure "
            "as a function of graph shape is not decided.",
     "C07": "Decides the recursion scheme of loop extraction (every cyclic "
            "SCC replaced, body decomposed recursively on a private copy, "
@@ -85,7 +97,11 @@ TEXT = {
            "classification is revised before any phase reads it, carving "
            "the body cuts only loop-back and boundary edges, break events are "
            "partitioned exactly between their two handlers, exit fan-out "
-           "recorded before the cut). Classification "
+           "recorded before the cut, parent rewiring keeps edges and "
+           "successor / predecessor sets in step, the loop node inherits the "
+           "outside evidence of start, end and break events, break events "
+           "connected to the exit are replaced by dummy breaks). "
+           "Classification "
            "of loop components is value-dependent and not decided.",
     "C08": "Decides the structural clauses of the sequencing rules: overlap "
            "chains compare against the running maximum end, no empty group "
@@ -119,7 +135,8 @@ TEXT = {
            "nested lazy groups along every consumer chain (stream variables "
            "identified by how they are bound), a broken trace is skipped "
            "without ending the stream, session scope of yields, filter "
-           "algebra, child-link joins.",
+           "algebra, child-link joins on a column that is a key on its own, one "
+           "name per trace before grouping.",
     "C13": "Only the skip/validation clause: a record that fails validation "
            "is skipped per record without aborting the stream, the three "
            "field tables agree, exactly-one-of validators, a yielded span is "
@@ -137,7 +154,7 @@ TEXT = {
            "the loader's validation model passes them through unchanged, a record is rejected only for a missing key, "
            "an exhausted generator never reaches the learner, the mapping "
            "config reaches saver and loader, file listings take paths "
-           "literally.",
+           "literally, a loaded event is the transformed record itself.",
     "C15": "Enumerates every persistent write a run performs and decides a "
            "re-run-safety obligation for each (hash rows cleared before "
            "insert, link rows deleted with their nodes, run-time tables "
@@ -152,7 +169,8 @@ TEXT = {
            "result, the float error of ns->seconds stays below half a "
            "microsecond, seconds and microseconds are rounded together, UTC "
            "zone, fixed-width order-preserving format that the reader "
-           "parses, no memoisation on datetime equality.",
+           "parses, no memoisation on datetime equality, a hand-rolled memo "
+           "table is keyed by everything its value depends on.",
 }
 
 NOTE = ("Static analysis only (ast over /repo's working tree, nothing "
